@@ -22,7 +22,7 @@ func vDvCfg(prefix, idBase string, nDocs int) gCfg {
 	return gCfg{prefix: prefix, idBase: idBase, nDocs: nDocs, wide: -1,
 		fields: []gField{
 			{name: "f", terms: []string{"", "a", "é"}, dv: true, fixFreq: true},
-			{name: "g", terms: []string{"b"}, dv: true, fixFreq: true},
+			{name: "g", terms: []string{"b"}, dv: true, fixFreq: true, shape: true},
 			{name: "n", terms: []string{"c"}, fixFreq: true, always: true, allTerm: true}, // no doc values
 		}}
 }
